@@ -92,11 +92,14 @@ def ensure_pkgs_link():
     os.symlink(target, link)
 
 
-def cargo_build_repo(variant, packages, rustflags=None, bins=None):
+FAST_ENV = {"CARGO_NET_OFFLINE": "true", "CARGO_PROFILE_RELEASE_PANIC": "unwind"}
+
+
+def cargo_build_repo(variant, packages, rustflags=None, bins=None, fast=False):
     """Incremental release build of /repo's working tree into .build/<variant>."""
     ensure_pkgs_link()
     tdir = os.path.join(BUILD, variant)
-    env = dict(CARGO_ENV)
+    env = dict(FAST_ENV if fast else CARGO_ENV)
     env["CARGO_TARGET_DIR"] = tdir
     if rustflags:
         env["RUSTFLAGS"] = rustflags
@@ -129,10 +132,18 @@ def _tree_stamp(paths):
     return h.hexdigest()
 
 
-def build_plain(need_boots=True, variant="plain", rustflags=None):
+def build_fast(need_boots=True):
+    """The same toolchain without debug assertions: used as the *compiler host* for bulk compilation (the
+    debug runtime protects/unprotects every young-generation page at every collection, which makes the
+    optimizing compiler -- itself a Dora program -- 3x slower and not parallelisable in this sandbox).
+    Executables under test are still linked against the debug-assertion runtime of build_plain()."""
+    return build_plain(need_boots=need_boots, variant="fast", fast=True)
+
+
+def build_plain(need_boots=True, variant="plain", rustflags=None, fast=False):
     """Build dora driver, cannon compiler, runtime + startup static libs and (optionally) the boots
     compiler image from /repo's current working tree.  Returns the bin dir."""
-    bindir = cargo_build_repo(variant, ["dora", "dora-runtime", "dora-startup"], rustflags=rustflags)
+    bindir = cargo_build_repo(variant, ["dora", "dora-runtime", "dora-startup"], rustflags=rustflags, fast=fast)
     if need_boots:
         with Lock("boots-" + variant):
             stamp_file = os.path.join(bindir, "dora-boots-compiler.stamp")
@@ -144,7 +155,8 @@ def build_plain(need_boots=True, variant="plain", rustflags=None):
             old = open(stamp_file).read() if os.path.exists(stamp_file) else ""
             if old != stamp or not os.path.exists(out):
                 p = run([os.path.join(bindir, "dora"), "compile", "--internal-compile-boots", "--cannon",
-                         os.path.join(REPO, "pkgs/boots/boots.dora"), "-o", out], cwd=bindir, timeout=600)
+                         os.path.join(REPO, "pkgs/boots/boots.dora"), "-o", out], cwd=bindir, timeout=600,
+                        env={"DORA_FLAGS": "--gc-worker 1"})
                 if p.returncode != 0:
                     raise MachineryError("building the boots compiler failed:\n" +
                                          p.stderr.decode("utf-8", "replace")[-4000:])
